@@ -1,5 +1,5 @@
 """C11 — RTH plan evaluation returns the entry in force at the given time."""
-from vlib.gen_rth import plan, eval_times
+from vlib.gen_rth import plan, eval_times, varint, u16, i16, f2b
 from vlib.skyb import hx
 
 PID = "C11"
@@ -26,6 +26,22 @@ def generate(rng, tier):
         out.append((f"rth {hx(blk)} " + " ".join(qs), len(times) > 0))
         for t in eval_times(rng, times):
             out.append((f"rth {hx(blk)} e{t}", len(times) > 0))
+    # entry counts with bit 15 set (the count is an unsigned 16-bit field): long runs of 'same as previous'
+    # (the list-based model is quadratic in the plan size: few queries per plan)
+    for nent, goto in ([(32768, False)] if tier != "thorough" else [(32767, True), (32768, False), (40000, True), (65535, True), (65535, False)]):
+        blk = bytearray([rng.choice([1, 2, 10])]) + u16(2) + i16(-30) + i16(40) + i16(7) + i16(-9) + u16(nent)
+        T = 0
+        cum = []
+        for k in range(nent):
+            d = 1 if k % 1000 else rng.randint(1, 3)
+            T += d
+            cum.append(T)
+            if k == 0:
+                blk += bytes([0x20 if goto else 0x10]) + varint(d) + (varint(1) + varint(5) if goto else b"")
+            else:
+                blk += bytes([0x00]) + varint(d) + (varint(k % 100 + 1) if goto else b"")
+        qs = ["m", "p1", "p2"] + [f"e{f2b(float(x))}" for x in (0.5, cum[32700] + 0.5, cum[-1], cum[-1] + 1000.0)]
+        out.append((f"rth {hx(bytes(blk))} " + " ".join(qs), True))
     for blk in [b"", b"\x01", b"\x01\x00", b"\x01\x00\x00", b"\x01\x01\x00", b"\x01\x00\x00\x01\x00", b"\x01\x00\x00\x01\x00\x20"]:
         out.append((f"rth {hx(blk)} m p0 e0 e1065353216", False))
     return out
